@@ -330,3 +330,13 @@ Proof. vm_compute. reflexivity. Qed.
 Example example_v0_panics :
   get_results_v0 example_record 1 [5] (Some [7]) = Panic PANIC_INDEX.
 Proof. vm_compute. reflexivity. Qed.
+
+(* ---------------------------------------------------------------- *)
+(* lookups do not influence one another *)
+Lemma getresults_history_independent_l r pid pre ctx md post :
+  nth_error (run_calls r pid (pre ++ (ctx, md) :: post)) (List.length pre)
+  = Some (Ok (spec_results r pid ctx md)).
+Proof.
+  unfold run_calls. rewrite map_app. rewrite nth_error_app2 by (rewrite map_length; apply Nat.le_refl).
+  rewrite map_length, Nat.sub_diag. cbn. rewrite get_results_eq_spec_l. reflexivity.
+Qed.
